@@ -33,6 +33,35 @@ CHECKS = {
                 note=SEQ_NOTE),
 }
 
+HTTP_NOTE = ("Trusted: TLC/JVM; in-process actix service built from WebServer::config (requests never cross a socket in this check); "
+             "one concrete spelling per grammar form; payload tokens by exact byte match. Syntactically invalid HTTP is answered below the application and is not claimed.")
+CHECKS.update({
+    "C03": dict(cat="model_checking", ref="6/C03", engine="CONC", technique="TLC model checking of SyncStorage (request programs at storage-call granularity, lock, both backend semantics) + replay of model schedules + gate-level exhaustive exploration on the real code + TLC trace validation of recorded rounds (linearizability, ConcProps)",
+                text="TLC explores all interleavings of 2-3 request programs over seed states and checks mutual exclusion and linearizability (the create-then-add of a new client as two units); a sample of the terminal schedules, a bounded-exhaustive depth-first exploration over 'which parked request passes its storage call next' for all request pairs, and seeded random triples run on the real handlers/library under a gating Storage wrapper (in-memory, one SQLite object, two SQLite objects on one directory); TLC judges every recorded round.",
+                note="Trusted: TLC/JVM, the gating wrapper (public Storage trait) and its log order (sequence numbers under one mutex; acquired logged after txn() returns, release before the drop). Requests are threads of one process; a blocked txn() is recognised by a grace period, timing never decides a verdict. Bounds: pairs exhaustively up to a round cap, triples sampled."),
+    "C09": dict(cat="model_checking", ref="6/C09", engine="LOCK+SEQ", technique="two-run non-interference on the real code judged by TLC (TraceLockstep) + C09_Step predicate on all SEQ traces (TLC model checking + trace validation)",
+                text="Each seeded multi-client history (arguments deliberately quoting other clients' ids) is projected onto each client and re-run alone on a fresh server; TLC compares the client's responses and own state pair by pair (oracle: the code's own solo behaviour). In addition the C09 step predicate (other clients' state untouched, no foreign id/payload in a response) is checked by TLC on the model and on every step of the tours and histories.",
+                note=SEQ_NOTE),
+    "C12": dict(cat="model_checking", ref="6/C12", engine="URG+SEQ", technique="TLC model checking of the threshold rule (MC_Urgency, incl. BigNat vs native) + grid of real add_version calls judged by TLC with BigNat arithmetic (TraceUrg) + counter/urgency predicates on all SEQ traces",
+                text="MC_Urgency checks thresholds, monotonicity and the BigNat arithmetic exhaustively for small values; a grid of targets (0, 1, odd, u32/i64 extremes) x measures around both thresholds is executed as one real add_version each (state set through the public storage API) and judged by TLC with BigNat; the versions-since counter and the reported urgency are checked on every step of the SEQ runs on both backends.",
+                note="Ages beyond chrono's range (~9.5e7 days) cannot be set up and are skipped (counted in evidence). Dev profile (overflow checks on)."),
+    "C13": dict(cat="model_checking", ref="6/C13", engine="LOCK", technique="lock-step execution of every model tour and of seeded histories on in-memory / SQLite / SQLite-with-reopen, pairs judged by TLC (TraceLockstep)",
+                text="Every tour covering the transitions of the bounded model, and seeded random histories, run on the in-memory backend, on SQLite and on SQLite with a real close/reopen at the model's Reopen edges; TLC compares canonical events index by index.",
+                note=SEQ_NOTE),
+    "C14": dict(cat="model_checking", ref="6/C14", engine="HTTP", technique="replay of every model transition through the HTTP handlers with a library twin on a twin storage in lock step; TLC trace validation with the Encode predicate of spec/SyncHttp.tla",
+                text="Every transition of the bounded model is executed through the real HTTP handlers while the protocol library executes the same request on a twin storage; TLC checks that status, presence/absence and values of X-Version-Id / X-Parent-Version-Id / X-Snapshot-Request, content type and body carry exactly the twin's outcome and that both storages end in the same state.",
+                note=HTTP_NOTE),
+    "C15": dict(cat="exploration", ref="6/C15", engine="HTTP", technique="TLC enumerates the request grammar of spec/SyncHttp.tla completely (<=2 deviations from the well-formed baseline); every request is sent to the real handlers; TLC trace validation (C15_Step)",
+                text="The grammar (route x method x client-id form x path-id form x content-type form x body size x chunking) is enumerated by TLC with its classifier (malformed / either / well-formed); each request is concretised and sent to servers holding non-trivial state on both backends, incl. bodies of limit-1, limit, limit+1 bytes single and multi chunk; TLC checks 4xx-and-unchanged for malformed, never 5xx, accepted up to the limit.",
+                note=HTTP_NOTE),
+    "C16": dict(cat="model_checking", ref="6/C16", engine="HTTP", technique="TLC model checking of spec/SyncAllow.tla (allow-list over the protocol model) + replay of every transition through the HTTP handlers with a library twin + TLC trace validation (C16_Step incl. zero storage transactions)",
+                text="The allow-list model (lists = all subsets of the clients, reconfiguration on existing data) is explored by TLC; every transition runs through the real handlers: unlisted => 403, no storage transaction begun (counting Storage wrapper), state unchanged, on all four endpoints; listed => identical to the library twin without a list; malformed ids under a list come from the grammar.",
+                note=HTTP_NOTE),
+    "C20": dict(cat="exploration", ref="6/C20", engine="HTTP", technique="TLC trace validation (C20_Step) over all HTTP-level explorations: model tours, allow-list tours, request grammar",
+                text="Every HTTP exchange produced by the tour, allow-list and grammar explorations (all routes, methods, outcomes, refusals, unknown routes) is checked by TLC for a Cache-Control header with a no-store directive; evidence counts distinct (route, method, status, outcome) combinations.",
+                note=HTTP_NOTE),
+})
+
 REASON_WIP = "check not built yet (work in progress, see DESIGN.md section 10 build order)"
 
 
@@ -61,8 +90,16 @@ def main():
                   "baseline_off_cmd": "cd /repo && cargo test --workspace --no-fail-fast --offline",
                   "source_commits": [], "add_only": True},
         "engines": [
-            {"name": "SEQ", "path": "lib/engines.py:engine_seq", "serves_properties": sorted(k for k, v in CHECKS.items() if v["engine"] == "SEQ"),
+            {"name": "SEQ", "path": "lib/engines.py:engine_seq", "serves_properties": sorted(k for k, v in CHECKS.items() if "SEQ" in v["engine"]),
              "kind_free_text": "TLC on spec/SyncProtocol (MC_Seq) + edge emission + tour replay through harness + TLC trace validation (spec/TraceSeq)"},
+            {"name": "CONC", "path": "lib/engines.py:engine_conc", "serves_properties": ["C03"],
+             "kind_free_text": "TLC on spec/SyncStorage (MC_Conc) + schedule replay / gate-level DFS under harness/src/conc.rs + TLC trace validation (spec/TraceConc)"},
+            {"name": "HTTP", "path": "lib/engines.py:engine_http", "serves_properties": ["C14", "C15", "C16", "C20"],
+             "kind_free_text": "TLC on spec/SyncHttp (MC_Http grammar), spec/SyncAllow (MC_Allow) + replay through real handlers with library twin + TLC trace validation"},
+            {"name": "LOCK", "path": "lib/engines.py:engine_lock", "serves_properties": ["C09", "C13"],
+             "kind_free_text": "lock-step executions (backend variants, two-run non-interference) judged by TLC (spec/TraceLockstep)"},
+            {"name": "URG", "path": "lib/engines.py:engine_urg", "serves_properties": ["C12"],
+             "kind_free_text": "TLC on spec/MC_Urgency + grid of real add_version calls judged by TLC with BigNat (spec/TraceUrg)"},
         ],
         "checks": checks,
         "notes": "Model-based verification with an explicit TLA+ specification; see DESIGN.md. One orchestrator: ./check <id> quick|thorough.",
